@@ -40,7 +40,7 @@ def build() -> Check:
         "Field-flow of the BatchResult summary generators into ChildConfig objects. Wrapper: oversized result/error is recorded synchronously "
         "before the status is returned with an empty payload.",
         ["equality of the rebuilt value and absence of new records during a real replay depend on the children's own cells (C01/C11)",
-         "len() is a character count; byte-vs-character length is not decided"],
+         "byte-vs-character length is decided for the wrapper's response (json.dumps ASCII-only or measured encoded); for a child context's payload produced by a user serdes it is not"],
         "one obligation per rule and site",
     )
     child = pm.executors.get("ChildOperationExecutor")
@@ -272,6 +272,24 @@ def build() -> Check:
             bad.append(("oversized error returned without recording it", t))
     ck.floor("wrapper_oversize_traces", n_big, 1)
     ck.ob("R5.wrapper-oversize", fn_construct(wrapper), not bad, (bad[0][0] + ": " + trace_sig(bad[0][1])[-400:]) if bad else "")
+    # units: the limit is a byte count and len() of a str counts characters - the two agree only for ASCII-only text, which json.dumps
+    # guarantees with its default ensure_ascii=True (a str measured with ensure_ascii=False must be encoded before it is measured)
+    badu = []
+    n_meas = 0
+    for t in wt:
+        import re as _re
+        sized = [k for k, v in t.pc if k.startswith("len(") and "json.dumps#" in k and " > " in k]
+        measured = {m for k in sized if ".encode" not in k for m in _re.findall(r"^len\(json\.dumps#(\d+)", k)}
+        n_meas += sum(1 for k in sized if ".encode" in k)  # measured as bytes
+        for e in t.kinds("DUMPS"):
+            if str(e.data["n"]) in measured:
+                n_meas += 1
+                ea = e.data.get("kwargs", {}).get("ensure_ascii")
+                if ea not in (None, "True"):
+                    badu.append((f"the response is measured with len() of json.dumps(..., ensure_ascii={ea}): a character count is compared with the byte "
+                                 "limit, so a large non-ASCII result is returned inline above the limit instead of being recorded", t))
+    ck.floor("measured_dumps", n_meas, 1)
+    ck.ob("R5.size-measured-in-bytes", fn_construct(wrapper), not badu, badu[0][0] if badu else f"{n_meas} measured json.dumps calls")
     ck.ob("R5.response-limit", fn_construct(wrapper), lim == {str(6 * 1024 * 1024 - 50)}, f"response size limit evaluates to {sorted(lim)}")
     return ck
 
